@@ -5,9 +5,12 @@ for P polygons of n vertices each (P symbolic, n = 3..8 and symbolic), triangle 
 n-2 triangles whose corners are vertices of the cell, bit for bit.  Lemmas (mathematics, discharged by z3 over the reals, A-REAL): the signed
 areas of the fan triangles add up to the signed area of the polygon (n = 3..8), and for a convex ring every fan triangle has the orientation
 of the ring -- together: the fan covers a convex cell exactly, without overlap.
-NOT decided deductively: triangulate_dataset (pandas index joins, loops with carried counters over numpy.unique of symbolic lengths) and
-_triangulate_concave_polygon (ear clipping driven by shapely's floating-point predicates) -- bounded native stand-in with an exact rational
-oracle (harness/native/C14.py), labelled bounded.
+Also under contract: triangulate_dataset up to its loops, by intermediate assertions at three cut points of the real body (run_until): the
+classification of the cells (set aside for ear clipping iff hull and ring differ in their number of coordinates), the batch of every length,
+and what the fan / ear-clipping functions are applied to.
+NOT decided deductively: the buffer bookkeeping after the cut points (_add_triangles with its cursor, the final assert), the vertex
+de-duplication and index joins (pandas) and _triangulate_concave_polygon (ear clipping driven by shapely's floating-point predicates) --
+bounded native stand-in with an exact rational oracle (harness/native/C14.py), labelled bounded.
 """
 from __future__ import annotations
 
